@@ -10,11 +10,10 @@
      and amount > 0 -> fresh storage (alloced = amount, data[0] = 0); null and amount = 0
      -> m_data stays null; sole owner with amount <= alloced -> nothing; shared and
      amount < alloced -> amount = alloced; then the reallocation path, which constructs a
-     new strdata, sets alloced = amount, with keepold copies the old C string (the bytes up
-     to the first 0, NOT len bytes) and the old len, otherwise stores a 0 at the start, and
-     DelRef()s the old storage.
-   - EnsureDataWritable (m_data = nullptr; EnsureAlloced(len + 1, false); copyn of
-     len + 1; m_data->len = len; olddata->DelRef()).
+     new strdata, sets alloced = amount, with keepold copies len + 1 bytes (memcpy) and
+     the old len, otherwise stores a 0 at the start, and DelRef()s the old storage.
+   - EnsureDataWritable (m_data = nullptr; EnsureAlloced(len + 1, false); memcpy of
+     len + 1 bytes; m_data->len = len; olddata->DelRef()).
    - operator=(const str&), the copy constructor (after the destructor of the slot),
      operator=(const char* ) with its "same pointer" punt, append(const char* ),
      append(char), append(const str&) with its self-append guard (a temporary copy of the
@@ -92,6 +91,10 @@ Fixpoint write_at (b : list N) (off : nat) (l : list N) {struct b} : option (lis
           end
       end
   end.
+
+(* memcpy source: the first n bytes of a buffer; None = a read beyond the allocation *)
+Definition read_n (b : list N) (n : nat) : option (list N) :=
+  if Nat.leb n (length b) then Some (firstn n b) else None.
 
 (* copy(b + dst, b + src) inside one buffer: the loop stores the byte it reads and
    stops after it has stored a 0 *)
@@ -187,8 +190,8 @@ Definition c_str_of (s : st) (v : N) : outcome (list N) :=
 
 Definition realloc (s : st) (v id : N) (d : sdata) (amount : nat) (keepold : bool) : outcome st :=
   do nb <- (if keepold
-            then do l <- ov (cstr (buf d));                         (* copy(newbuffer, m_data->data()) *)
-                 ov (write_at (repeat poison amount) 0 (l ++ [0%N]))
+            then do src <- ov (read_n (buf d) (dlen d + 1));        (* memcpy of len + 1 bytes *)
+                 ov (write_at (repeat poison amount) 0 src)
             else ov (write_at (repeat poison amount) 0 [0%N]));     (* newbuffer[0] = 0 *)
   (* newdata->alloced = amount; newdata->len = m_data->len when keepold *)
   let s1 := new_data s (mkD 0 amount (if keepold then dlen d else 0) nb) in
@@ -221,9 +224,9 @@ Definition ensure_writable (s : st) (v : N) : outcome st :=
           do s1 <- ensure_alloced (set_var s v None) v (len + 1) false;
           with_data s1 v (fun nid nd =>
             do od <- deref s1 old;
-            do src <- ov (cstr (buf od));
-            (* copyn(m_data->data(), olddata->data(), len + 1) stores indices 0..min(strlen, len+1) *)
-            do nb <- ov (write_at (buf nd) 0 (firstn (S (len + 1)) (src ++ [0%N])));
+            (* memcpy(m_data->data(), olddata->data(), len + 1) *)
+            do src <- ov (read_n (buf od) (len + 1));
+            do nb <- ov (write_at (buf nd) 0 src);
             del_ref (upd s1 nid (mkD (refc nd) (alloced nd) len nb)) old)
       end
   end.
